@@ -347,6 +347,8 @@ def _seed_form(variant: int, lab: str):
             "survey": [{"type": "select_one l1 or_other", "name": "q1", "label::L1": lab, "label::L2": "B"}],
             "choices": [{"list_name": "l1", "name": "a", "label::L1": "A", "label::L2": "A2"}],
         }
+    if variant == 5:  # a triggered calculation with several other bind cells: order of the bind attributes
+        return {"survey": [{"type": "text", "name": "t", "label": lab}, {"type": "text", "name": "b", "label": "B", "calculation": "1", "trigger": "${t}", "relevant": "1=1", "required": "yes", "constraint": ". != 2", "read_only": "yes"}]}
     if variant == 4:  # pulldata() on different files in several bind columns: order of the instances
         return {"survey": [{"type": "text", "name": "q1", "label": lab, "calculation": "pulldata('fa','a','b','c')", "constraint": "pulldata('fb','a','b','c')", "required": "pulldata('fc','a','b','c')", "relevant": "pulldata('fd','a','b','c')"}]}
     if variant == 3:  # several extra namespaces + entities: order of xmlns attributes on the root
@@ -374,9 +376,9 @@ def c14_setorder(variant: int, l0: int) -> bool:
         try:
             s, w, _js = build_survey(_seed_form(variant, lab))
             root = s.xml()
-            outs.append(("ok", tree(root), list(w), list(root.attributes.keys())))
+            outs.append(("ok", tree(root), list(w), list(root.attributes.keys()), root.toxml()))  # serialised text: attribute order counts
         except PyXFormError as e:
-            outs.append(("error", str(e), None, None))
+            outs.append(("error", str(e), None, None, None))
         finally:
             setorder.ACTIVE = True
     return outs[0] == outs[1]
@@ -389,7 +391,7 @@ def _seed_public(args):
     return {"workbook": _seed_form(args["variant"] if "variant" in args else 0, S(args["l0"], 66))}
 
 
-for _v in (0, 1, 2, 3, 4):
+for _v in (0, 1, 2, 3, 4, 5):
     specialise(
         "C14",
         "a.hash-seed",
@@ -399,7 +401,7 @@ for _v in (0, 1, 2, 3, 4):
         kernel=("pyxform.survey:Survey._add_empty_translations", "pyxform.survey:Survey._setup_translations", "pyxform.xls2json:workbook_to_json", "pyxform.validators.pyxform.translations_checks:Translations._find_missing", "pyxform.validators.pyxform.parameters_generic:validate"),
         shims=("S1", "S3", "S4", "S8"),
         symbolic="iteration order of every set iterated by pyxform code (solver-chosen rotation/swap each time pyxform code starts iterating a set of 2-5 elements: sets built by pyxform code and module-level set constants) and a symbolic label character",
-        bounds="the same workbook converted twice in one path: once with insertion order, once with solver-chosen set orders (sets of 2-5 elements; sets produced inside C-level operations such as dict-view arithmetic are outside the model); form variant fixed per instance (itext padding, or_other with translations, multi-item error/warning messages, namespaces, pulldata instances)",
+        bounds="the same workbook converted twice in one path: once with insertion order, once with solver-chosen set orders (sets of 2-5 elements; sets produced inside C-level operations such as dict-view arithmetic are outside the solver model: for those only the concrete PYTHONHASHSEED 0..23 replay of the witness form applies, and a divergence there is reported as a violation found by the replay); form variant fixed per instance (itext padding, or_other with translations, multi-item error/warning messages, namespaces, pulldata instances, bind attributes of a triggered question)",
         weight=120,
         setorder=True,
         hashseed_public=_seed_public,
